@@ -28,7 +28,7 @@ class BSpline1D(BSpline):
         """
         Evaluate the B-Spline at point x.
 
-        The support of this function is the half-open interval [t[0], t[-1]).
+        The support of this function is the interval [t[0], t[-1]].
 
         :param x: The point at which to evaluate.
 
